@@ -22,6 +22,7 @@
 -/
 import Spg.Generated.Cli
 import Spg.Generated.Classes
+import SpgProofs.Lemmas.CliParse
 namespace Spg.C17
 open Spg Spg.Cli Spg.Generated
 
@@ -114,6 +115,66 @@ theorem words_defaults :
     (match action cliTables ["words"] with
       | .words list L sep cap ent => some (list, L, sep, cap, ent)
       | _ => none) = some ("words", 4, "const:-", "none", false) := by decide
+
+/-! ### Every valid `--name=value` command line denotes the documented recipe -/
+
+/-- **`opgen characters` with any valid list of `--name=value` arguments** (defined flag names,
+integers for `--length`, booleans for `--entropy`, any text for the class lists — in any
+order, with repetitions) denotes the character recipe obtained by taking for each flag the last
+value given, the flag's default otherwise, and reading each class list as the OR of its known
+class words (`parseClasses_spec`). For the shipped tables (`cli_tables_ok`) the defaults are
+20, all-but-ambiguous, nothing required. -/
+theorem cli_characters_spec (assigns : List (String × String))
+    (hv : ∀ a ∈ assigns, ValidAssign cliTables.charFlags a) :
+    action cliTables ("characters" :: assigns.map render) =
+      (let g := fun k => getVal cliTables.charFlags
+          (assigns.foldl (fun vs a => setVal vs a.1 (stored cliTables.charFlags a)) []) k
+       Action.chars { length := (parseInt (g "length")).getD 0,
+                      allow := parseClasses cliTables (g "allow") cliTables.defAllow,
+                      require := parseClasses cliTables (g "require") cliTables.defRequire,
+                      exclude := parseClasses cliTables (g "exclude") cliTables.defExclude,
+                      allowChars := [], requireSets := [], excludeChars := [] }
+                    (g "entropy" == "true")) :=
+  action_characters cliTables assigns hv
+
+/-- The same for `opgen words`: list, size, separator word, capitalisation word, `--entropy`;
+an unknown list word is a usage error, unknown separator/scheme words mean none. -/
+theorem cli_words_spec (assigns : List (String × String))
+    (hv : ∀ a ∈ assigns, ValidAssign cliTables.wordFlags a) :
+    action cliTables ("words" :: assigns.map render) =
+      (let g := fun k => getVal cliTables.wordFlags
+          (assigns.foldl (fun vs a => setVal vs a.1 (stored cliTables.wordFlags a)) []) k
+       let list := if g "file" != "" then "file" else g "list"
+       if list != "file" && list != "words" && list != "syllables" then Action.usage
+       else Action.words list ((parseInt (g "size")).getD 0) (sepOf cliTables (g "separator"))
+              (capOf cliTables (g "capitalize")) (g "entropy" == "true")) :=
+  action_words cliTables assigns hv
+
+/-- "The last value given, the default otherwise": what `getVal` returns after the parse. -/
+theorem cli_flag_last_wins (defs : List (String × FlagKind × String)) (assigns : List (String × String)) (k : String) :
+    getVal defs (assigns.foldl (fun vs a => setVal vs a.1 (stored defs a)) []) k =
+      match lastValue defs k assigns none with
+      | some v => v
+      | none => match defs.lookup k with
+        | some (_, d) => d
+        | none => "" :=
+  getVal_fold defs assigns k
+
+/-- Non-vacuity: a command line with a repeated flag meets the hypotheses, and denotes the recipe
+with the last length given. -/
+example :
+    let assigns := [("length", "12"), ("require", "digits,symbols"), ("length", "8"), ("entropy", "true")]
+    (∀ a ∈ assigns, ValidAssign cliTables.charFlags a) ∧
+    (match action cliTables ("characters" :: assigns.map render) with
+      | .chars r ent => some (r.length, r.require, ent) | _ => none) = some (8, 12, true) := by
+  refine ⟨?_, by decide⟩
+  intro a ha
+  simp only [List.mem_cons, List.not_mem_nil, or_false] at ha
+  rcases ha with rfl | rfl | rfl | rfl
+  · exact ⟨⟨'l', "ength".toList, by decide, by decide, by decide⟩, by decide, .int, "20", by decide, by decide, by decide⟩
+  · exact ⟨⟨'r', "equire".toList, by decide, by decide, by decide⟩, by decide, .str, "", by decide, by decide, by decide⟩
+  · exact ⟨⟨'l', "ength".toList, by decide, by decide, by decide⟩, by decide, .int, "20", by decide, by decide, by decide⟩
+  · exact ⟨⟨'e', "ntropy".toList, by decide, by decide, by decide⟩, by decide, .bool, "false", by decide, by decide, by decide⟩
 
 /-! ### Tests of the parser on representative command lines (tests, not the general claim) -/
 
